@@ -7,6 +7,7 @@ from ..harness import Shard, rng_for, h64, schema_shape, datum_shape, printable,
 from ..gen.cases import gen_case, boundary_cases
 from ..ref import schema as RS, binary as RB, conform as RC
 from ..mon.streams import ReadOnlyStream
+from .. import known
 
 PID = "C01"
 LEVEL = "exploration"
@@ -35,7 +36,8 @@ REACH = {
               "omitted_default_cases": 50, "recursive_cases": 20, "by_name_cases": 50},
     "thorough": {"cases_checked": 100000, "back_to_back_streams": 5000},
 }
-SOPTS = dict(bytes_defaults=0.0, null_ns_inside=0.05)
+SOPTS = dict(bytes_defaults=0.15, null_ns_inside=0.05)
+KNOWN_BYTES_DEFAULT = "bytes-default-used-verbatim"
 DOPTS = dict(omit_nullable=0.1)
 
 
@@ -155,7 +157,9 @@ def run_shard(spec):
             sh.count("by_name_cases")
         if "big_collection" in feats or "coll_big" in feats:
             sh.count("big_collections")
-        r = sh.run_case(one_case, sh, fa, case, parsed)
+        filled = known.neutralise_bytes_defaults(case) if RC.has_bytes_default(case["node"]) else case
+        r = sh.run_case(sh.with_finding, KNOWN_BYTES_DEFAULT, RC.has_bytes_default(case["node"]),
+                        lambda s_: one_case(s_, fa, case, parsed), lambda s_: one_case(s_, fa, filled, parsed))
         if i % 500 == 1:
             sh.sample({"schema": case["schema"], "datum": printable(case["datum"], 300), "parsed": parsed})
         if r is not None:
